@@ -227,7 +227,7 @@ func Main(prop string) {
 		if len(terms) == 0 {
 			return
 		}
-		run.WriteCasesV(fmt.Sprintf("cases_%d.v", start), []string{"Lib.Json", "DiffMerge.Model", "Server.Model", "Server.Release", "Server.Check"}, "", "mismatches_from_sparse", 0, terms)
+		run.WriteCasesV(fmt.Sprintf("cases_%d.v", start), []string{"Lib.Json", "DiffMerge.Model", "Server.Model", "Server.Release", "Server.Queries", "Server.Check"}, "", "mismatches_from_sparse", 0, terms)
 		terms = nil
 	}
 	for idx, co := range outs {
